@@ -205,6 +205,28 @@ fn cq_uunit(router: &Router<Rule>, example: &Example, out: &Value) -> Option<Str
         cq_list(&lower, |(a, b)| format!("({}, {})", cq_str(a), cq_str(b))), cq_list(&ids, |x| cq_str(x))))
 }
 
+/// one failed example of the test-examples analysis with the rules the router matched for it, as a Coq `utest19` term
+fn cq_utest(router: &Router<Rule>, rule_id: &str, fe: &Value) -> Option<String> {
+    let example: Example = serde_json::from_value(fe["example"].clone()).ok()?;
+    let request = Request::from_example(&router.config, &example).ok()?;
+    let routes = router.match_request(&request);
+    let mut html_dropped = false;
+    let mut names: BTreeSet<String> = BTreeSet::new();
+    names.insert("Location".to_string());
+    let rules: Vec<String> = routes.iter().map(|r| crate::c05::cq_urule_api(&serde_json::to_value(r.handler()).unwrap(), &mut html_dropped, &mut names)).collect();
+    if html_dropped { return None; }
+    let lower: Vec<(String, String)> = names.iter().map(|n| (n.clone(), n.to_lowercase())).filter(|(a, b)| a != b).collect();
+    let skipped = request.path_and_query_skipped.skipped_query_params.clone();
+    let strs = |v: &Value| -> Vec<String> { v.as_array().map(|a| a.iter().map(|x| x.as_str().unwrap_or("").to_string()).collect()).unwrap_or_default() };
+    let expected: Vec<String> = example.unit_ids_applied.clone().unwrap_or_default();
+    Some(format!("{{| ut_rules19 := {}; ut_skipped := {}; ut_code := {}; ut_lower := {}; ut_expected := {}; ut_id := {}; ut_must_match := {}; ut_loop := {}; ut_out_rules := {}; ut_out_units := {}; ut_out_gone := {} |}}",
+        cq_list(&rules, |x| x.clone()), match &skipped { None => "None".to_string(), Some(x) => format!("(Some {})", cq_str(x)) },
+        match example.response_status_code { None => "None".to_string(), Some(c) => format!("(Some {})", c) },
+        cq_list(&lower, |(a, b)| format!("({}, {})", cq_str(a), cq_str(b))), cq_list(&expected, |x| cq_str(x)), cq_str(rule_id),
+        cq_bool(example.must_match), cq_bool(!fe["redirection_loop"].is_null()),
+        cq_list(&strs(&fe["rule_ids_applied"]), |x| cq_str(x)), cq_list(&strs(&fe["unit_ids_applied"]), |x| cq_str(x)), cq_list(&strs(&fe["unit_ids_not_applied_anymore"]), |x| cq_str(x))))
+}
+
 /// one hop of the redirect chain, computed independently of RedirectionLoop: the live pipeline for (url, method), the
 /// Location joined to the current url, the 301/302 method rewrite, and whether the target leaves the project's domains
 fn one_hop(router: &Router<Rule>, example: &Example, url: &str, method: &str, domains: &[String]) -> Option<(String, String, u64, bool)> {
@@ -282,6 +304,11 @@ pub fn run_case(id: usize, input: &Value) {
         let reported = ep.as_ref().map(|o| json!({"status_code": o["response"]["status_code"], "headers": o["response"]["headers"], "body": o["response"]["body"], "log": o["should_log_request"]}));
         if let Some(o) = ea.as_ref() { if let Some(p) = cq_pipe(&fresh, &example, &o["backend_status_code"], &o["response"], &o["should_log_request"]) { pipes.push(p); } }
         if let Some(o) = ea.as_ref() { if let Some(p) = cq_upipe(&fresh, &example, &o["unit_trace"]) { upipes.push(p); } }
+        // the test-examples analysis: every failed example it reports, against the model on the matched rules
+        let mut utests: Vec<String> = Vec::new();
+        if let Some(m) = ta["first_ten_failures"].as_object() {
+            for (rid, v) in m { for fe in v["failed_examples"].as_array().map(|a| a.as_slice()).unwrap_or(&[]) { if utests.len() < 6 { if let Some(p) = cq_utest(&fresh, rid, fe) { utests.push(p); } } } }
+        }
         // the unit-ids analysis: what it stores on every example of every rule, against the model on the matched rules
         let mut uunits: Vec<String> = Vec::new();
         {
@@ -320,9 +347,9 @@ pub fn run_case(id: usize, input: &Value) {
             k += 1;
         }
         let chain = ep.as_ref().map(|o| o["redirection_loop"].clone()).unwrap_or(Value::Null);
-        (tests_same, units_same, explain_same, impact_same, live, reported, nodes, table, chain, json!({"tests": [proj_tests(&tp), proj_tests(&ta)], "many_failures": many}), pipes, upipes, uunits)
+        (tests_same, units_same, explain_same, impact_same, live, reported, nodes, table, chain, json!({"tests": [proj_tests(&tp), proj_tests(&ta)], "many_failures": many}), pipes, upipes, uunits, utests)
     });
-    let (tests_same, units_same, explain_same, impact_same, live, reported, nodes, table, chain, extra, pipes, upipes, uunits) = match res {
+    let (tests_same, units_same, explain_same, impact_same, live, reported, nodes, table, chain, extra, pipes, upipes, uunits, utests) = match res {
         Ok(x) => x,
         Err(e) => { emit(id, "", input.clone(), &["panic".to_string()], false, json!({"panic": e})); return; }
     };
@@ -335,8 +362,8 @@ pub fn run_case(id: usize, input: &Value) {
     }
     let err_code = match chain["error"].as_str() { None => 0, Some("AtLeastOneHop") => 1, Some("TooManyHops") => 2, Some("Loop") => 3, _ => 9 };
     let has_chain = !chain.is_null() && chain_ok && table.len() == nodes.len();
-    let coq = format!("{{| k_tests_same := {}; k_units_same := {}; k_explain_same := {}; k_impact_same := {}; k_pipeline_same := {}; k_pipes := {}; k_upipes := {}; k_uunits := {}; k_has_chain := {}; k_max := {}; k_table := {}; o_hops := {}; o_err := {} |}}",
-        cq_bool(tests_same), cq_bool(units_same), cq_bool(explain_same), cq_bool(impact_same), cq_bool(pipeline_same), cq_list(&pipes, |x| x.clone()), cq_list(&upipes, |x| x.clone()), cq_list(&uunits, |x| x.clone()), cq_bool(has_chain), input["max_hops"].as_u64().unwrap(),
+    let coq = format!("{{| k_tests_same := {}; k_units_same := {}; k_explain_same := {}; k_impact_same := {}; k_pipeline_same := {}; k_pipes := {}; k_upipes := {}; k_uunits := {}; k_utests := {}; k_has_chain := {}; k_max := {}; k_table := {}; o_hops := {}; o_err := {} |}}",
+        cq_bool(tests_same), cq_bool(units_same), cq_bool(explain_same), cq_bool(impact_same), cq_bool(pipeline_same), cq_list(&pipes, |x| x.clone()), cq_list(&upipes, |x| x.clone()), cq_list(&uunits, |x| x.clone()), cq_list(&utests, |x| x.clone()), cq_bool(has_chain), input["max_hops"].as_u64().unwrap(),
         cq_list(&table, |(n, st, ext, sl)| format!("({}, {}, {}, {})", n, match st { None => "None".to_string(), Some((i, c)) => format!("(Some ({}, {}))", i, c) }, cq_bool(*ext), cq_bool(*sl))),
         cq_list(&hops, |(i, c)| format!("({}, {})", i, c)), err_code);
     let mut tags: Vec<String> = vec![format!("max_hops:{}", input["max_hops"]), format!("hops:{}", hops.len().min(8)), format!("err:{}", err_code)];
@@ -351,6 +378,7 @@ pub fn run_case(id: usize, input: &Value) {
     tags.push(format!("pipes:{}", pipes.len().min(4)));
     tags.push(format!("unit-traces:{}", upipes.len().min(4)));
     tags.push(format!("unit-ids:{}", uunits.len().min(6)));
+    tags.push(format!("failed-examples:{}", utests.len().min(6)));
     let nontrivial = hops.len() >= 2 || live.as_ref().map(|l| l["status_code"] != json!(200) && l["status_code"] != json!(0)).unwrap_or(false);
     emit(id, &coq, input.clone(), &tags, nontrivial, json!({"live": live, "reported": reported, "chain": chain, "more": extra}));
 }
